@@ -1898,6 +1898,11 @@ func (c *leafCtx) expr7(e ast.Expr, want string) (string, string, bool) {
 					}
 					if c.mentionsVar(x.Args[1]) { // run-time length: a negative one panics
 						n, nt := c.expr(x.Args[1], "Int64")
+						if nt == "UInt16" || nt == "UInt8" || nt == "UInt32" { // an unsigned length below 2^63: never negative
+							if r, ok := convert(n, nt, "Int64"); ok {
+								n, nt = r, "Int64"
+							}
+						}
 						if nt == "Int64" {
 							v := c.fresh("_s")
 							c.binds = append(c.binds, c.bindLine("(Go.makeBytesN? "+n+")", v, "opt:makeslice"))
@@ -2530,6 +2535,9 @@ var leaves7 = []leaf7Spec{
 	// eighth generation: `for cond {}`, binary.BigEndian.Uint16(b[off:]), b[lo:hi] as a value
 	{"net/ntske", "ServerCookie.Decode", "ntske_ServerCookie_Decode", "LeafNtske"},
 	{"net/ntske", "EncryptedServerCookie.Decode", "ntske_EncryptedServerCookie_Decode", "LeafNtske"},
+	{"net/nts", "Authenticator.unpack", "nts_Authenticator_unpack", "LeafNts"},
+	{"net/nts", "UniqueIdentifier.unpack", "nts_UniqueIdentifier_unpack", "LeafNts"},
+	{"net/nts", "Cookie.unpack", "nts_Cookie_unpack", "LeafNts"},
 	// eighth generation (leaf8.go): the clock object — recorded system calls with their argument
 	// values, pointers to immutable structs with identity, the expiry goroutine
 	{"driver/clocks", "setOffset", "clocks_setOffset", "LeafClocks"},
